@@ -13,6 +13,9 @@ import Drv.XTypes
 import Drv.TypeMatch
 import Drv.Filters
 import Drv.Preds
+import Drv.IR
+import Drv.Macro
+import Drv.Conv
 /-!
 Line-protocol driver: one operation per line on stdin, one canonical answer line on stdout.
 Every engine exports `handle : List String → Option String` answering only its own ops;
@@ -35,7 +38,10 @@ def handlers : List (List String → Option String) := [
   Drv.XT.handle,
   Drv.TM.handle,
   Drv.Filters.handle,
-  Drv.Preds.handle
+  Drv.Preds.handle,
+  Drv.IRPrint.handle,
+  Drv.MacroE.handle,
+  Drv.ConvE.handle
 ]
 
 def dispatch (fs : List String) : Option String :=
